@@ -90,7 +90,7 @@ def self_calls(fn, selfname="self"):
 
 def iter_body_nodes(fn):
     """ast.walk over a function body without descending into nested defs / classes."""
-    stack = list(fn.body)
+    stack = [s for s in fn.body if not isinstance(s, (ast.FunctionDef, ast.AsyncFunctionDef, ast.ClassDef))]
     while stack:
         n = stack.pop()
         yield n
